@@ -52,12 +52,12 @@ def strings(cfg, rng):
             yield WT.mutate(rng, WT.gen_text(rng), foreign=0.3)
         elif c < 0.96:
             # long runs: a token may be arbitrarily long
-            n1 = rng.randint(33, 120)
+            n1 = rng.choice([rng.randint(33, 120), rng.randint(33, 120), 255, 256, 257, 511, 512, 513, 600, 1023, 1025, 1500, 4097])
             kind = rng.random()
             if kind < 0.4:
                 yield rng.choice(["", "x+", "2*"]) + "".join(rng.choice("0123456789") for _ in range(n1)) + rng.choice(["", ".5", "x", " + 1"])
             elif kind < 0.8:
-                pre = "".join(rng.choice("abxyzq") for _ in range(rng.choice([29, 30, 31, 32, 33, 61, 64, 65])))
+                pre = "".join(rng.choice("abxyzq") for _ in range(rng.choice([29, 30, 31, 32, 33, 61, 64, 65, 255, 256, 509, 510, 511, 512, 513, 1021, 1024, 4093])))
                 yield pre + rng.choice(["sgn", "sgn(x)", "sg", "sgnn"]) + rng.choice(["", "(x)", " "])
             else:
                 yield "x" + " " * n1 + "+" + "\t" * rng.randint(1, 40) + "y"
